@@ -132,7 +132,8 @@ def evil(draw):
 
 
 POSITIONS = ["tag-arg-key", "element-arg-key", "extra-value", "unknown-section", "pipeline-first", "pipeline-last", "pipeline-middle", "tag-arg", "tag-arg", "tag-arg-seq",
-             "pipeline-element-arg", "type-element-arg", "complex-key", "logging", "alias", "alias-in-tag", "top-level-key"]
+             "pipeline-element-arg", "type-element-arg", "complex-key", "logging", "alias", "alias-in-tag", "top-level-key",
+             "root-tag", "merge-value", "merge-seq", "merge-in-tag", "merge-in-element"]
 
 
 @st.composite
@@ -143,7 +144,7 @@ def document(draw):
     lazy = draw(st.sampled_from(["VLazy", "VEager"]))
     filler = draw(value_nodes(tags=("VLazy", "VEager"), max_leaves=4))
     return {"evil": ev, "pos": pos, "depth": depth, "tag": lazy, "filler": filler, "flow": draw(st.booleans()),
-            "logging": draw(st.booleans())}
+            "logging": draw(st.booleans()), "merge_shape": draw(st.sampled_from(["own", "{a: 1}", "{a: 1}", "{}", "[{a: 1}]", "[]"]))}
 
 
 def wrap(node, depth, flow, in_tag=None):
@@ -194,12 +195,26 @@ def build(doc):
         extra = {"l": [{"x": "&evil " + doc["evil"]["text"]}, {"t": tag, "n": {"m": [["a", wrap({"r": "evil"}, depth - 1, flow)]], "flow": flow}}], "flow": False}
     elif pos == "top-level-key":
         top_key = ev
+    elif pos.startswith("merge"):
+        # the forbidden tag sits on a node that is merged into a mapping with `<<` (the YAML merge key)
+        mev = ev if doc.get("merge_shape", "own") == "own" else {"x": doc["evil"]["text"].split(" ", 1)[0] + " " + doc["merge_shape"]}
+        merged = {"l": [{"m": [["q", {"s": 0}]], "flow": True}, mev], "flow": True} if pos == "merge-seq" else mev
+        host = {"m": [["a", {"s": 1}], ["<<", merged]], "flow": flow}
+        if pos == "merge-in-tag":
+            extra = {"t": tag, "n": wrap(host, depth - 1, flow) if depth > 1 else host}
+        elif pos == "merge-in-element":
+            pipeline[0] = {"t": "VDeco", "n": host}
+        else:
+            extra = wrap(host, depth - 1, flow)
     sections.append(["pipeline", {"l": pipeline, "flow": False}])
     if extra is not None:
         sections.append(["verifextra", extra])
     if logging_node is not None:
         sections.append(["logging", logging_node])
     root = {"m": sections, "flow": False}
+    if pos == "root-tag":
+        # the forbidden tag sits on the root node of an otherwise valid configuration
+        root = {"t": doc["evil"]["text"].split(" ", 1)[0][1:], "n": root}
     text = emit_document(root, directives="%TAG !py! tag:yaml.org,2002:python/" if doc["evil"]["handle"] else "")
     if top_key is not None:
         text += "? " + doc["evil"]["text"] + "\n: 1\n"
@@ -244,7 +259,7 @@ def run_case(doc) -> Result:
     ensure()
     res.cls("kind:" + doc["evil"]["kind"], "pos:" + doc["pos"], "spelling:" + doc["evil"]["spelling"],
             "canary:" + str("canary" in str(doc["evil"]["target"])))
-    res.nontrivial = doc["pos"] in ("tag-arg-key", "element-arg-key", "tag-arg", "tag-arg-seq", "pipeline-element-arg", "type-element-arg", "complex-key", "alias", "alias-in-tag", "top-level-key")
+    res.nontrivial = doc["pos"] in ("tag-arg-key", "element-arg-key", "tag-arg", "tag-arg-seq", "pipeline-element-arg", "type-element-arg", "complex-key", "alias", "alias-in-tag", "top-level-key") or doc["pos"].startswith("merge")
     return res
 
 
